@@ -321,6 +321,20 @@ theorem claim_hex_spellings (q : Nat) (s slots : List Nat) (h : claimFromHex q s
 /-- non-vacuity: "0AfF" is read as the bytes 10, 255 and written back as "0aff"; the hypotheses of the round trip are met by a concrete claim -/
 example : decode [48, 65, 102, 70] = some [10, 255] ∧ encode [10, 255] = [48, 97, 102, 102] := by decide
 example : ([1, 2, 3, 4, 5, 6, 7, 99] : List Nat).length = 8 ∧ ∀ s ∈ ([1, 2, 3, 4, 5, 6, 7, 99] : List Nat), s < 100 := by decide
+/-- the signature member of a proof: accepted only as 64 bytes of hexadecimal (128 digits), whatever the case of the digits -/
+theorem comp_signature_spelling (dec : List Nat → Bool) (s : List Nat) :
+    (compSigOk dec s = true → s.length = 128) ∧
+    compSigOk dec (s.map upperChar) = compSigOk dec s ∧ compSigOk dec (s.map lowerChar) = compSigOk dec s := by
+  refine ⟨?_, by simp [compSigOk, decode_upper], by simp [compSigOk, decode_lower]⟩
+  intro h
+  unfold compSigOk at h
+  split at h
+  · simp at h
+  · rename_i bs hd
+    obtain ⟨hl, _, _⟩ := decode_spec s bs hd
+    simp at h
+    omega
+
 end ClaimHex
 
 /-! ### authentication entries of a DID document (Authentication.UnmarshalJSON / MarshalJSON; model M10b) -/
